@@ -8,7 +8,7 @@ WT = "/tmp/wt/eval"
 
 
 def sh(cmd, **kw):
-    return subprocess.run(cmd, shell=isinstance(cmd, str), stdout=subprocess.PIPE, stderr=subprocess.STDOUT, text=True, **kw)
+    return subprocess.run(cmd, shell=isinstance(cmd, str), stdout=subprocess.PIPE, stderr=subprocess.STDOUT, text=True, errors="replace", **kw)
 
 
 def confirm(d, skip_suite=False):
@@ -47,6 +47,11 @@ def run_checks(d, props):
     r = sh("git -C /repo apply %s" % patch)
     if r.returncode != 0:
         return {"error": "patch does not apply to /repo: " + r.stdout[-300:]}
+    # evidence files must always describe the unchanged tree: keep them aside while a seeded change is applied
+    ev = os.path.join(ROOT, "evidence")
+    bak = os.path.join(ROOT, ".cache", "evidence.bak")
+    shutil.rmtree(bak, ignore_errors=True)
+    shutil.copytree(ev, bak)
     try:
         for p in props:
             t = time.time()
@@ -56,6 +61,8 @@ def run_checks(d, props):
             out[p] = {"exit": r.returncode, "violation_lines": viol, "detail": detail, "wall_s": round(time.time() - t, 1)}
     finally:
         sh("git -C /repo checkout -- .")
+        shutil.rmtree(ev, ignore_errors=True)
+        shutil.copytree(bak, ev)
     return out
 
 
